@@ -158,6 +158,8 @@ func modelLine(cmd string, op *Op, oracle int) string {
 		h.Tokens(&sb)
 	case "drop":
 		fmt.Fprintf(&sb, "drop %d", modelSid(op.Sess))
+	case "badjoin":
+		return "tryrm 999999" // no model operation: the router of realms is unchanged
 	case "tick":
 		fmt.Fprintf(&sb, "tick %d", op.Ms)
 	case "rmrealm":
